@@ -14,7 +14,6 @@ import (
 	"fmt"
 	"strings"
 	"testing"
-	"time"
 
 	"go.opentelemetry.io/collector/component"
 	"go.opentelemetry.io/collector/config/configcompression"
@@ -110,6 +109,7 @@ func c15RunRouteGrpc(t *testing.T, out *vOut, r *c15Recv, c c15RouteCase, ci int
 	cfg.QueueConfig.Enabled = false
 	cfg.RetryConfig.Enabled = false
 	cfg.ClientConfig.Endpoint = ep
+	cfg.TimeoutConfig.Timeout = c15Patience
 	cfg.ClientConfig.TLSSetting = configtls.ClientConfig{Insecure: true}
 	cfg.ClientConfig.Compression = configcompression.Type(c.comp)
 	set := exportertest.NewNopSettings(f.Type())
@@ -154,9 +154,16 @@ func c15RunRouteGrpc(t *testing.T, out *vOut, r *c15Recv, c c15RouteCase, ci int
 	defer func() { _ = comp.Shutdown(ctx) }()
 	r.sink.set(nil)
 	before, _ := r.sink.snapshot()
-	sctx, cancel := context.WithTimeout(ctx, 20*time.Second)
+	sctx, cancel := context.WithTimeout(ctx, c15Patience)
 	err := send(sctx)
 	cancel()
+	for try := 1; try <= 3 && c15TransportFailure("grpc", err) && func() bool { n, _ := r.sink.snapshot(); return n == before }(); try++ {
+		// client transport failure with no server-side record (loaded machine): sent again
+		out.Linef("stat conc_transport_retry 1")
+		sctx, cancel = context.WithTimeout(ctx, c15Patience)
+		err = send(sctx)
+		cancel()
+	}
 	after, lastB := r.sink.snapshot()
 	got := r.sink.lastSignal()
 	verdict := c15Verdict(err)
@@ -193,6 +200,7 @@ func c15RunRoute(t *testing.T, out *vOut, dflt, custom *c15Recv, c c15RouteCase,
 	cfg.QueueConfig.Enabled = false
 	cfg.RetryConfig.Enabled = false
 	cfg.ClientConfig.Compression = configcompression.Type(c.comp)
+	cfg.ClientConfig.Timeout = c15Patience
 	if c.enc == "json" {
 		cfg.Encoding = otlphttpexporter.EncodingJSON
 	}
@@ -274,9 +282,16 @@ func c15RunRoute(t *testing.T, out *vOut, dflt, custom *c15Recv, c c15RouteCase,
 	defer func() { _ = comp.Shutdown(ctx) }()
 	r.sink.set(nil)
 	before, _ := r.sink.snapshot()
-	sctx, cancel := context.WithTimeout(ctx, 20*time.Second)
+	sctx, cancel := context.WithTimeout(ctx, c15Patience)
 	err := send(sctx)
 	cancel()
+	for try := 1; try <= 3 && c15TransportFailure("http", err) && func() bool { n, _ := r.sink.snapshot(); return n == before }(); try++ {
+		// client transport failure with no server-side record (loaded machine): sent again
+		out.Linef("stat conc_transport_retry 1")
+		sctx, cancel = context.WithTimeout(ctx, c15Patience)
+		err = send(sctx)
+		cancel()
+	}
 	after, lastB := r.sink.snapshot()
 	got := r.sink.lastSignal()
 	verdict := c15Verdict(err)
